@@ -92,6 +92,7 @@ class Runner(IOOpsMixin):
         self.trace_state = threading.local()
         self.file_texts = {}
         self.cwd_rel = {c: w["cwd"] for c, w in scenario["worlds"].items()}
+        self.profile = [] if scenario.get("_profile") else None       # fault sweep: per operation, how many opens (and of which kind) and cij line events
         self.client_reads = {c: {} for c in scenario["worlds"]}     # (base, name) -> (digest, handle): every calculator of a client is built
         self.client_writes = {c: {} for c in scenario["worlds"]}    # from the same settings file, so they must all agree
 
@@ -187,6 +188,7 @@ class Runner(IOOpsMixin):
             "mode": self.mode, "client": self.solo,
             "obs": self.obs, "verdicts": self.verdicts, "stats": st,
             "event_digest": self.seams.event_digest(), "n_events": len(self.seams.events),
+            **({"profile": self.profile} if self.profile is not None else {}),
         }
 
     def _loop(self):
@@ -227,6 +229,7 @@ class Runner(IOOpsMixin):
             return
         self.stats["segments_run"] += 1
         baton = Baton(self, [m[0] for m in members], item.get("switches", []))
+        baton.pp_limit = int(item.get("pp_limit", 6000))
         errors = []
 
         def body(c, i, op):
@@ -320,6 +323,11 @@ class Runner(IOOpsMixin):
         fired_before = len(self.seams.fault_fired)
         self.seams.ctx.fired0 = fired_before
         uninstall_trace = False
+        if tracer is None and line_fault is None and self.profile is not None:
+            tracer = LineTracer(self)
+            tracer.sites = {}
+            sys.settrace(tracer.global_trace)
+            uninstall_trace = True
         if tracer is None and line_fault is not None:
             tracer = LineTracer(self, fault=line_fault, who=(client, i, attempt))
             sys.settrace(tracer.global_trace)
@@ -358,6 +366,10 @@ class Runner(IOOpsMixin):
                 sys.settrace(None)
                 self.stats["line_events"] += tracer.steps
         out = self.stdout.stop()
+        if self.profile is not None:
+            self.profile.append({"client": client, "op": i, "kind": kind, "opens": list(getattr(self.seams.ctx, "open_log", [])),
+                                 "lines": tracer.steps if tracer is not None else 0, "status": rec["status"],
+                                 "sites": [[k, v[0], v[1]] for k, v in sorted((getattr(tracer, "sites", None) or {}).items())]})
         writes, reads = self.seams.end_op()
         mine = [f for f in self.seams.fault_fired if tuple(f[1:4]) == (client, i, attempt)]
         if mine and rec["status"] != "ok":
@@ -1037,7 +1049,9 @@ class Baton:
         self.runner = runner
         self.names = list(names)
         self.switches = [x for x in switches if not isinstance(x, list)]
-        self.aims = [[x[0], x[1], x[2], 0] for x in switches if isinstance(x, list)]
+        self.aims = [[x[0], x[1], x[2], 0] + list(x[3:4]) for x in switches if isinstance(x, list)]
+        self.back = None
+        self.pp_limit = 6000
         self.events = {n: threading.Event() for n in names}
         self.finished = set()
         self.count = 0
@@ -1060,10 +1074,25 @@ class Baton:
         return None
 
     def maybe_switch(self, tracer, frame=None):
-        if not self.switches and not self.aims:
+        if not self.switches and not self.aims and self.back is None:
             return
         hit = False
-        if self.aims and frame is not None:
+        pingpong = None
+        me = tracer.me
+        if self.back is not None and frame is not None:
+            # ping-pong: the thread that was switched away from waits inside function F; the running thread hands the baton back once it
+            # is m lines into the SAME function (both threads inside one function at once), or after 4000 lines without getting there
+            bk = self.back
+            bk[4] += 1
+            if frame.f_code is bk[0] or (frame.f_code.co_name == bk[0].co_name and frame.f_code.co_filename == bk[0].co_filename):
+                bk[2] += 1
+                if bk[2] >= bk[1]:
+                    self.back = None
+                    self.runner.probe("pingpong_both_in_same_function")
+                    hit = True
+            if not hit and bk[4] > self.pp_limit:
+                self.back = None
+        if not hit and self.aims and frame is not None:
             # aimed switch points are watchpoints, all armed at once: the n-th line the running thread executes inside the named function
             name, fn = frame.f_code.co_name, frame.f_code.co_filename
             for a in self.aims:
@@ -1073,13 +1102,15 @@ class Baton:
                         self.aims.remove(a)
                         self.runner.probe("aimed_switch_hit")
                         hit = True
+                        pingpong = a[4] if len(a) > 4 else None
                         break
         self.count += 1
         if not hit:
-            if not self.switches or self.count < self.switches[0]:
+            if not self.switches or self.count < abs(self.switches[0]):
                 return
-            self.switches.pop(0)
-        me = tracer.me
+            head = self.switches.pop(0)
+            if head < 0:
+                pingpong = 1 + (abs(head) % 7)       # a negative count marks a ping-pong switch point; m is derived from it
         n = self.count
         self.count = 0
         o = self.other(me)
@@ -1090,6 +1121,8 @@ class Baton:
             site = f"{frame.f_code.co_filename[len(REPO_CIJ):]}:{frame.f_code.co_name}"
             ss = self.runner.stats.setdefault("switch_sites", {})
             ss[site] = ss.get(site, 0) + 1
+            if pingpong:
+                self.back = [frame.f_code, int(pingpong), 0, me, 0]
         self.runner.seams.log("switch", me, o, n)
         self.current = o
         self.events[o].set()
@@ -1115,6 +1148,7 @@ class LineTracer:
         self.fired_in = None
         self.baton = baton
         self.me = me
+        self.sites = None
         if fault is not None:
             self.arm_fault(fault, who)
 
@@ -1133,6 +1167,15 @@ class LineTracer:
         if event != "line":
             return self.local_trace
         self.steps += 1
+        if self.sites is not None:      # profiling for the fault sweep: at which step is each source line executed (first few occurrences)
+            key = f"{frame.f_code.co_filename[len(REPO_CIJ):]}:{frame.f_lineno}"
+            ent = self.sites.get(key)
+            if ent is None:
+                self.sites[key] = [[self.steps], 1]
+            else:
+                ent[1] += 1
+                if len(ent[0]) < 6:
+                    ent[0].append(self.steps)
         if self.fault is not None and self.fault.get("func"):
             # aimed fault: fires at the n-th line event executed inside the named function (wherever in the operation that is)
             if frame.f_code.co_name == self.fault["func"][1] and frame.f_code.co_filename.endswith(self.fault["func"][0]):
